@@ -48,6 +48,74 @@ def scratch_root() -> str:
     return os.environ.get('VERIF_SCRATCH') or tempfile.gettempdir()
 
 
+def _second_run(obs, spec, second, lab, built, ctl, backend_kind, storage, storage_null, base_ctx, obs_dir, d, displays, deadline_s):
+    """A second run_tasks call on the SAME task objects - on the same Lab object, or on a new Lab sharing the storage object."""
+    # workers that run 1 had already started keep running after run_tasks raised: let them finish, so that the cache state
+    # sampled below (and the trace split) is quiescent
+    t_end = time.monotonic() + 8.0
+    while time.monotonic() < t_end:
+        started, ended = [], set()
+        for r in vu.read_trace(obs_dir):
+            if r[0] == 'S':
+                started.append(r[1])
+            elif r[0] in ('E', 'X', 'K'):
+                ended.add(r[1])
+        if all(n in ended for n in started):
+            time.sleep(0.05 if backend_kind in ('fork', 'spawn') else 0)
+            break
+        time.sleep(0.01)
+    if backend_kind in ('fork', 'spawn') and obs.outcome == 'raise':
+        # a worker started just before the raise may not have written its S record yet: wait until the trace has been stable
+        # (no new record, every started task ended) for a full window
+        window = 4.0 if backend_kind == 'spawn' else 1.0
+        last_len, t_stable = -1, time.monotonic()
+        t_end = time.monotonic() + 20.0
+        while time.monotonic() < t_end:
+            recs = vu.read_trace(obs_dir)
+            quiet = all(any(e[0] in ('E', 'X', 'K') and e[1] == r[1] for e in recs) for r in recs if r[0] == 'S')
+            if len(recs) != last_len or not quiet:
+                last_len, t_stable = len(recs), time.monotonic()
+            elif time.monotonic() - t_stable >= window:
+                break
+            time.sleep(0.02)
+    n_trace = len(vu.read_trace(obs_dir))
+    n_events = len(ctl.events)
+    o2 = Obs()
+    o2.built = built
+    if not storage_null:
+        probe = labtech.Lab(storage=storage, runner_backend='serial')
+        obs.cached_mid = {nid: probe.is_cached(task) for nid, task in built.shared.items()}
+    context2 = {**base_ctx, 'nonce': 'run2'}
+    o2.context = context2
+    if second.get('same_lab', True):
+        lab.context.clear()
+        lab.context.update(context2)
+        lab_b = lab
+    else:
+        backend2 = ControlledBackend(ctl) if backend_kind == 'controlled' else SpyBackend(backend_kind, ctl)
+        lab_b = labtech.Lab(storage=lab._storage, continue_on_failure=lab.continue_on_failure, max_workers=lab.max_workers,
+                            context=context2, runner_backend=backend2, notebook=False)
+    ctl.deadline = time.monotonic() + deadline_s
+    sink = open(os.path.join(d, 'display2.txt'), 'w')
+    try:
+        with contextlib.redirect_stderr(sink), _alarm(deadline_s + 5.0):
+            try:
+                req2 = built.requested if second.get('requested') is None else [built.shared[i] for i in second['requested']]
+                res = lab_b.run_tasks(req2, bust_cache=second.get('bust', False), disable_progress=not displays, disable_top=not displays)
+            except HarnessTimeout as ex:
+                o2.outcome, o2.exc, o2.timeout = 'raise', ex, True
+            except BaseException as ex:   # noqa
+                o2.outcome, o2.exc = 'raise', ex
+            else:
+                o2.outcome = 'return'
+                o2.returned = [(k.name, v) for k, v in res.items()]
+    finally:
+        sink.close()
+    o2.trace = vu.read_trace(obs_dir)[n_trace:]
+    o2.events = ctl.events[n_events:]
+    obs.second = o2
+
+
 class Obs:
     def __init__(self):
         self.outcome: str = ''            # 'return' | 'raise'
@@ -66,6 +134,8 @@ class Obs:
         self.timeout = False
         self.real_results_left: Any = None
         self.started_after_raise: list = []
+        self.second = None
+        self.cached_mid: dict = {}
         self.readable_after: list = []
         self.loaded_after: dict = {}
         self.cached_tasks_error = None
@@ -98,7 +168,7 @@ DEADLINES = {'controlled': 20.0, 'serial': 20.0, 'fork': 60.0, 'spawn': 150.0}
 
 def execute_case(spec: dict, *, chooser: Optional[Chooser] = None, gated: bool = False, deadline_s: Optional[float] = None,
                  keep_dir: bool = False, pre_hook=None, storage_wrapper=None, around_run=None, verify_cache: bool = False,
-                 rest_hook=None, idle_rounds: int = 2) -> Obs:
+                 rest_hook=None, idle_rounds: int = 2, second: Optional[dict] = None) -> Obs:
     obs = Obs()
     d = tempfile.mkdtemp(prefix='case-', dir=scratch_root())
     obs_dir = os.path.join(d, 'obs')
@@ -139,7 +209,7 @@ def execute_case(spec: dict, *, chooser: Optional[Chooser] = None, gated: bool =
         else:
             backend = SpyBackend(backend_kind, ctl)
         context = {**base_ctx, 'nonce': RUN_NONCE}
-        obs.context = context
+        obs.context = dict(context)
         if storage_wrapper is not None and not storage_null:
             storage = storage_wrapper(storage)
         lab = labtech.Lab(storage=storage, continue_on_failure=lab_spec.get('continue_on_failure', True),
@@ -171,6 +241,8 @@ def execute_case(spec: dict, *, chooser: Optional[Chooser] = None, gated: bool =
                     obs.returned_key_ids_ok = all(any(k is t for t in built.requested) for k in keys)
         finally:
             sink.close()
+        if second is not None and not obs.timeout and not gated:
+            _second_run(obs, spec, second, lab, built, ctl, backend_kind, storage, storage_null, base_ctx, obs_dir, d, displays, deadline_s)
         runner = ctl.runner
         if obs.outcome == 'raise' and backend_kind in ('fork', 'spawn') and not obs.timeout:
             # pass-only grace window: nothing may start once run_tasks has raised
@@ -190,6 +262,9 @@ def execute_case(spec: dict, *, chooser: Optional[Chooser] = None, gated: bool =
                 pass
         obs.trace = vu.read_trace(obs_dir)
         obs.events = ctl.events
+        if obs.second is not None:
+            obs.trace = obs.trace[:len(obs.trace) - len(obs.second.trace)] if obs.second.trace else obs.trace
+            obs.events = obs.events[:len(obs.events) - len(obs.second.events)] if obs.second.events else obs.events
         if runner is not None and hasattr(runner, 'real'):
             real = runner.real
             left = []
